@@ -98,14 +98,13 @@ AckCol(c) == LET evs == SelectSeq(acked, LAMBDA j : Tr[j].c + 1 = c)
                  vals |-> Flatten([i \in 1..Len(evs) |-> Tr[evs[i]].vals])]
 NothingLost == ~Ev.sf /\ Ev.acc = run.pos + Handed(EvOps) /\ Len(EvBytes) = Ev.acc
 SameAsRef == refl # 0 /\ (Has("sameAsRef") \/ Ev.bytes = Ref)
+\* result [v |-> "yes" | "no" | "undecided", why |-> reason when not "yes"]
 Completeness ==
-    IF NothingLost THEN "yes"
-    ELSE IF SameAsRef THEN "yes"
+    IF NothingLost \/ SameAsRef THEN [v |-> "yes", why |-> ""]
     ELSE LET f == ParseFile(EvBytes)
-         IN IF ~f.ok THEN (IF f.why = "codec-not-modelled" THEN "undecided" ELSE "no")
-            ELSE IF Len(f.leaves) = NCols /\ \A c \in 1..NCols : FlatCol(TableOf(f), c) = AckCol(c) THEN "yes" ELSE "no"
-CompleteWhy == IF NothingLost \/ SameAsRef THEN ""
-               ELSE LET f == ParseFile(EvBytes) IN IF f.ok THEN "parses-but-table-differs-from-acknowledged-rows" ELSE f.why
+         IN IF ~f.ok THEN [v |-> IF f.why = "codec-not-modelled" THEN "undecided" ELSE "no", why |-> f.why]
+            ELSE IF Len(f.leaves) = NCols /\ \A c \in 1..NCols : FlatCol(TableOf(f), c) = AckCol(c) THEN [v |-> "yes", why |-> ""]
+            ELSE [v |-> "no", why |-> "parses-but-table-differs-from-acknowledged-rows"]
 
 \* ---- prefixes: v[k+1] is the verdict for cut k: 0 = NULL returned but no error code set,
 \*      1..8999 = rejected with that code, 9001 = opened, 9002 = crash/hang, 9003 = rejected but
@@ -143,7 +142,7 @@ CloseVerdict(comp) ==
     LET closeOk == Ev.st = 0
         fo == run.failedOps \cup FailedKinds(EvOps)
         anyErr == impl.anyErr \/ ~closeOk
-        ackBad == closeOk /\ ~WSAckComplete(closeOk, comp # "no")
+        ackBad == closeOk /\ ~WSAckComplete(closeOk, comp.v # "no")
         repBad == ~WSFailReported(Ev.sf, anyErr)
     IN (IF run.refRun /\ ~closeOk THEN {"ref:close-failed"} ELSE {})
        \cup (IF Ev.st = 0 /\ wst = "open" /\ ~CanClose THEN {"close-not-enabled"} ELSE {})
@@ -156,7 +155,7 @@ CloseDetail(comp) ==
     LET anyErr == impl.anyErr \/ Ev.st # 0
     IN "accepted=" \o ToString(Ev.acc) \o " of " \o ToString(Len(Ref))
        \o (IF ~WSFailReported(Ev.sf, anyErr) THEN " fail-reported:violated" ELSE " fail-reported:ok")
-       \o (IF Ev.st = 0 /\ comp = "no" THEN " ack-complete:violated(" \o CompleteWhy \o ")" ELSE " ack-complete:ok")
+       \o (IF Ev.st = 0 /\ comp.v = "no" THEN " ack-complete:violated(" \o comp.why \o ")" ELSE " ack-complete:ok")
        \o " failed-ops=" \o ToString(run.failedOps \cup FailedKinds(EvOps))
 
 Verdict(comp) ==
@@ -192,7 +191,7 @@ CallUpdate(closing, comp) ==
                                  !.okcloses = IF closing /\ Ev.st = 0 /\ ~run.refRun THEN @ + 1 ELSE @,
                                  !.spurious = IF Ev.st # 0 /\ ~Ev.sf THEN @ + 1 ELSE @,
                                  !.parsedcloses = IF closing /\ Ev.st = 0 /\ ~NothingLost /\ ~SameAsRef THEN @ + 1 ELSE @,
-                                 !.undecidedcloses = IF closing /\ Ev.st = 0 /\ comp = "undecided" THEN @ + 1 ELSE @]
+                                 !.undecidedcloses = IF closing /\ Ev.st = 0 /\ comp.v = "undecided" THEN @ + 1 ELSE @]
 
 Apply(comp) ==
     CASE Ev.e = "Create" ->
@@ -241,7 +240,7 @@ TRerun == /\ l <= Len(Tr) /\ Ev.e = "Rerun" /\ l' = l + 1
 TSkip == /\ l <= Len(Tr) /\ Ev.e \notin {"Reset", "Rerun"} /\ skip
          /\ l' = l + 1 /\ UNCHANGED <<wst, schema, cur, done, sink, impl, skip, bad, stats, refl, base, run, acked>>
 TStep == /\ l <= Len(Tr) /\ Ev.e \notin {"Reset", "Rerun"} /\ ~skip
-         /\ LET comp == IF Ev.e = "Close" /\ Ev.st = 0 THEN Completeness ELSE "n/a"   \* evaluated once
+         /\ LET comp == IF Ev.e = "Close" /\ Ev.st = 0 THEN Completeness ELSE [v |-> "n/a", why |-> ""]   \* evaluated once
                 v == Verdict(comp)
             IN IF v = {} THEN Apply(comp) /\ UNCHANGED <<skip, bad>>
                ELSE \* a rejected event is printed at once (one JSON line) and only counted in the state
